@@ -103,15 +103,30 @@ J_add_fixed(e) == LET s == Src(e)
 \* ---- C04 -----------------------------------------------------------------------------
 \* entry points that shift backwards by the given components
 Backward == {"subtract", "minus_dur", "plus_neg_dur", "minus_td"}
+\* Operator paths.  A Duration REPORTS years and months as given and the rest re-normalised from its total with one
+\* sign (C09: duration(days=1, hours=-1) is 23 hours of elapsed time).  -d is built from the reported components,
+\* so dt - d, dt + (-d) and dt.subtract(d's components) shift by the reported components; for dt + d the property's
+\* "shifting weeks, days and time units" can be read on the reported components or on the amounts d was built from
+\* (what the implementation keeps as d's signature): either reading is accepted, they agree for one-signed amounts.
+DurEntries == {"plus_dur", "minus_dur", "plus_neg_dur", "radd_dur"}
+DurC(c) == LET b == Breakdown(RestOf([y |-> c.y, mo |-> c.mo, w |-> c.w, d |-> c.d, h |-> c.h, mi |-> c.mi, s |-> c.s,
+                                      ms |-> 0, us |-> c.us]))
+           IN [y |-> c.y, mo |-> c.mo, w |-> b[1], d |-> b[2], h |-> b[3], mi |-> b[4], s |-> b[5], us |-> b[6]]
 J_add_cal(e) ==
   LET s == Src(e)
-      c == IF e.a.entry \in Backward THEN NegC(e.a.c) ELSE e.a.c
-  IN IF ~CalInRange(s.w, c) THEN R(<<"out-of-range">>, <<>>)
+      en == e.a.entry
+      norm == IF en \in DurEntries THEN DurC(e.a.c) ELSE e.a.c
+      c0 == IF en \in {"minus_dur", "plus_neg_dur"} THEN norm ELSE e.a.c
+      c == IF en \in Backward THEN NegC(c0) ELSE c0
+      two == en \in {"plus_dur", "radd_dur"} /\ norm # e.a.c
+  IN IF ~CalInRange(s.w, c) \/ (two /\ ~CalInRange(s.w, norm)) THEN R(<<"out-of-range">>, <<>>)
      ELSE LET x == Add(s, c)
               tgt == IF HasCal(c) /\ ~IsNaive(s) THEN Classify(Z(s.z), WDS(AddCalWall(s.w, c))) ELSE "unique"
-          IN R(<<e.a.entry, B(HasCal(c)), B(c.y # 0 \/ c.mo # 0), "target", tgt, "clamped",
+              v1 == CmpOut(e.post, x, "DateTime")
+          IN R(<<en, B(HasCal(c)), B(c.y # 0 \/ c.mo # 0), "renormalised", B(norm # e.a.c), "target", tgt, "clamped",
                  B(ShiftedYM(s.w, c)[3] # s.w[3]), "offchg", B(OffOf(s) # OffOf(x))>>,
-               CmpOut(e.post, x, "DateTime"))
+               IF v1 = <<>> \/ ~two THEN v1
+               ELSE IF CmpOut(e.post, Add(s, norm), "DateTime") = <<>> THEN <<>> ELSE v1)
 J_add_cal_date(e) ==
   LET w == e.pre[1].w
       c == IF e.a.entry \in Backward THEN NegC(e.a.c) ELSE e.a.c
